@@ -34,6 +34,7 @@ class ModuleInfo:
     def __init__(self, modname, path, is_pkg, tree):
         self.modname, self.path, self.is_pkg, self.tree = modname, path, is_pkg, tree
         self.funcs, self.classes, self.globals = {}, {}, set()
+        self.global_values = {}    # module-level name -> value AST of its (single) assignment
         self.imports = {}          # local name -> ('ext', dotted) | ('mod', modname) | ('sym', modname, name)
         self.stars = []            # odak modules star-imported
 
@@ -121,6 +122,10 @@ class Program:
                         for x in ast.walk(t):
                             if isinstance(x, ast.Name):
                                 m.globals.add(x.id)
+                                if isinstance(n, ast.Assign) and isinstance(t, ast.Name) and len(n.targets) == 1:
+                                    m.global_values[x.id] = n.value if x.id not in m.global_values else None
+                                else:
+                                    m.global_values[x.id] = None
                 elif isinstance(n, (ast.If, ast.Try)):
                     visit(n.body)
                     visit(getattr(n, 'orelse', []))
@@ -230,6 +235,11 @@ class Frame:
         self.is_closure = False
         self.local_imports = {}
         self.self_name = None
+
+
+def is_private_helper(fn, cls):
+    """module-level function whose name starts with a single underscore: not an entry point of the library"""
+    return cls is None and fn.name.startswith('_') and not fn.name.startswith('__')
 
 
 class Unsupported(Exception):
@@ -891,6 +901,9 @@ class Translator:
         if r is None or r[0] in ('func', 'class', 'mod', 'ext'):
             return None, 'scalar'
         if r[0] == 'global':
+            gv = self.P.modules[r[1]].global_values.get(r[2])
+            if gv is not None and (self.const_kind(gv) == 'scalar' or self.is_namedtuple_type(gv)):
+                return None, 'scalar'                 # module constant (number, string, tuple of those) or a namedtuple type: immutable
             v = self.seed('global:%s.%s' % (r[1], r[2]), None)
             return v, None
         return None, None
@@ -1166,6 +1179,14 @@ class Translator:
                 return self.construct(r[1], args, kwargs, star, fr)
             if r[0] == 'ext':
                 return self.library_call(r[1], args, kwargs, allv, fr, e)
+            if r[0] == 'global' and self.is_namedtuple_type(self.P.modules[r[1]].global_values.get(r[2])):
+                # NT(a, b, c): a new immutable tuple holding its arguments
+                c = self.bind_new('%d:namedtuple' % fr.depth, None, 'container')
+                if allv:
+                    self.emit('store', c, allv)
+                if not kwargs and not star:
+                    self.tuple_elts[c] = list(args)
+                return c, 'container'
         if isinstance(f, ast.Name) and f.id not in fr.env:
             if r is None:
                 return self.builtin_call(f.id, args, kwargs, allv, fr, e)
@@ -1273,6 +1294,59 @@ class Translator:
             self.emit('store', recv, ys)
         return r
 
+    @staticmethod
+    def is_namedtuple_type(gv):
+        return isinstance(gv, ast.Call) and (getattr(gv.func, 'id', None) == 'namedtuple' or getattr(gv.func, 'attr', None) in ('namedtuple', 'NamedTuple'))
+
+    def apply_callable(self, fexpr, argvals, fr):
+        """call of a function-valued expression (higher-order library functions): lambdas and resolvable odak
+        functions are inlined; anything else is an unresolved callee"""
+        if isinstance(fexpr, ast.Lambda):
+            key = '<lambda:%d>' % fexpr.lineno
+            if fr.depth >= MAX_DEPTH or key in fr.stack:
+                return self.unresolved_call('<lambda>', None, [v for v, _ in argvals if v is not None], fr)
+            nf = Frame(fr.modname, fr.cls, fr.self_ns, fr.fn, fr.depth + 1, fr.stack + (key,))
+            nf.is_closure = True
+            nf.env, nf.local_funcs, nf.local_imports, nf.self_name = dict(fr.env), dict(fr.local_funcs), dict(fr.local_imports), fr.self_name
+            a = fexpr.args
+            names = [p.arg for p in list(a.posonlyargs) + list(a.args)]
+            for i, n in enumerate(names):
+                v, k = argvals[i] if i < len(argvals) else (None, None)
+                nf.env[n] = self.bind_new('%d:%s' % (nf.depth, n), v, k)
+            return self.ev(fexpr.body, nf)
+        allv = [v for v, _ in argvals if v is not None]
+        if isinstance(fexpr, ast.Name) and fexpr.id in fr.local_funcs and fexpr.id not in fr.env:
+            return self.inline(fr.local_funcs[fexpr.id], fr.modname, None, None, list(argvals), {}, [], fr, closure=fr)
+        r = self.resolve_in(fr, fexpr) if isinstance(fexpr, (ast.Name, ast.Attribute)) and not (isinstance(fexpr, ast.Name) and fexpr.id in fr.env) else None
+        if r is not None and r[0] == 'func':
+            return self.inline(r[2], r[1], None, None, list(argvals), {}, [], fr)
+        cv, _ = self.ev(fexpr, fr)
+        return self.unresolved_call('<callable>', cv, allv, fr)
+
+    def reduce_call(self, e, args, fr):
+        """functools.reduce(f, iterable[, initial]):  acc = initial | first item;  for item: acc = f(acc, item)"""
+        it = args[1][0]
+        acc = self.var('%d:reduce' % fr.depth, None)
+        if len(args) > 2:
+            if args[2][0] is None:
+                self.emit('fresh', acc)
+            else:
+                self.emit('alias', acc, [args[2][0]])
+        elif it is None:
+            self.emit('fresh', acc)
+        else:
+            self.emit('load', acc, [it])
+
+        def body():
+            item = self.bind_new('%d:item' % fr.depth, it, None, 'load') if it is not None else None
+            v, k = self.apply_callable(e.args[0], [(acc, None), (item, None)], fr)
+            if v is None:
+                self.emit('fresh', acc)
+            else:
+                self.emit('alias', acc, [v])
+        self.loop(fr, body)
+        return acc, None
+
     def find_method(self, cls, name, seen=None):
         seen = seen or set()
         if cls.name in seen:
@@ -1352,6 +1426,8 @@ class Translator:
     def library_call_(self, dotted, args, kwargs, allv, fr, e, npos, kwspec):
         T = self.T
         rec = lambda cls: self.libcalls.add((dotted, npos, kwspec, cls))
+        if dotted == 'functools.reduce' and len(e.args) >= 2 and not e.keywords and not any(isinstance(a, ast.Starred) for a in e.args):
+            return self.reduce_call(e, args, fr)
         if dotted in T.LIB_WRITE_UNLESS_COPY and (self.copies_not(kwargs, e) or npos > 1):
             rec('write')
             if args and args[0][0] is not None:
@@ -1513,6 +1589,13 @@ class Translator:
         allv = [v for v, _ in args if v is not None] + [v for v, _ in kwargs.values() if v is not None] + star
         if fr.depth >= MAX_DEPTH or key in fr.stack or self.nstmts > MAX_STMTS or star:
             self.notes.add('not inlined: %s' % key)
+            if is_private_helper(fn, cls):
+                # a private helper is checked only where it is called: when it cannot be inlined (recursion, depth, star
+                # arguments) it is taken to write everything it is given
+                self.notes.add('private helper not inlined, treated as writing its arguments: %s' % key)
+                for v in allv:
+                    self.emit('mut', v)
+                    self.emit('mut', self.bind_new('%d:part' % fr.depth, v, None, 'load'))
             return self.unresolved_call(fn.name, None, allv, fr)
         nf = Frame(modname, cls, self_ns, fn, fr.depth + 1, fr.stack + (key,))
         if closure is not None:
@@ -1679,6 +1762,7 @@ def translate_all(repo, tables):
             r = {'name': qual, 'params': [], 'prog': [], 'names': {}, 'nvars': 0, 'unresolved': [], 'unclassified': [],
                  'notes': [], 'nstmts': 0, 'error': 'recursion', 'libcalls': [], 'methcalls': [], 'probed': {}}
         r['file'] = P.modules[modname].path
+        r['private'] = is_private_helper(fn, cls)
         r['line'] = fn.lineno
         out.append(r)
     return out
